@@ -40,7 +40,7 @@ pub fn note_first_any_align() {
     let e = any_endian();
     let mut it = elf::note::NoteIterator::new(e, any_class(), align, &buf[..len]);
     let first = it.next();
-    kani::cover!(first.is_some() && align > usize::MAX - 8, "a note parsed with an alignment near usize::MAX");
+    kani::cover!(first.is_none() && len >= 13 && align > usize::MAX - 8, "a note record with an alignment near usize::MAX was rejected without overflow");
     kani::cover!(first.is_some() && align == 3, "a note parsed with alignment 3");
 }
 
